@@ -151,13 +151,33 @@ theorem exit_inv (s : State) (h : Inv s) : Inv { s with keepRunning := false } :
   inv_api h (core_same h rfl rfl rfl rfl) h.allocPar h.parIn h.parNext rfl (fun e => e) rfl rfl rfl rfl rfl
     rfl rfl rfl rfl rfl rfl h.logCanc (Or.inr fun _ hid => hid)
 
+theorem flags_inv (s : State) (k e : Bool) (h : Inv s) : Inv { s with keepRunning := k, exitTimer := e } :=
+  { count := h.count, allocPar := h.allocPar, parIn := h.parIn, parNext := h.parNext, order := h.order,
+    shapeQuiet := h.shapeQuiet, shapeBatch := h.shapeBatch, shapeDrain := h.shapeDrain, fdRun := h.fdRun,
+    driver := h.driver, execs := h.execs, logExec := h.logExec, logCanc := h.logCanc, exitPend := h.exitPend }
+
+theorem dropExitTimer_inv (s : State) (tid : Nat) (h : Inv s) : Inv (dropExitTimer s tid) := by
+  unfold dropExitTimer
+  split
+  · have := flags_inv _ (submitNext s tid []).keepRunning false (submitNext_inv s tid [] h)
+    exact this
+  · exact h
+
 theorem doAct_inv (cfg : Cfg) (s : State) (tid : Nat) (a : Act) (h : Inv s)
     (hnd : ¬(s.phase = .drain ∧ s.remain = 100)) : Inv (doAct cfg s tid a) := by
   cases a with
   | inLoop k => exact submitInLoop_inv s tid _ h
   | next k => exact submitNext_inv s tid _ h
   | cancel id => exact cancel_inv s id h hnd
-  | exit => exact exit_inv s h
+  | exit => exact flags_inv _ false (dropExitTimer s tid).exitTimer (dropExitTimer_inv s tid h)
+  | exitLater => exact flags_inv _ (dropExitTimer s tid).keepRunning true (dropExitTimer_inv s tid h)
+  | throw =>
+    exact { count := h.count, allocPar := h.allocPar, parIn := h.parIn, parNext := h.parNext, order := h.order,
+            shapeQuiet := fun hp => ⟨(h.shapeQuiet hp).1, rfl, (h.shapeQuiet hp).2.2⟩,
+            shapeBatch := h.shapeBatch,
+            shapeDrain := fun hp => ⟨(h.shapeDrain hp).1, fun hr => ⟨rfl, ((h.shapeDrain hp).2.1 hr).2⟩, (h.shapeDrain hp).2.2⟩,
+            fdRun := h.fdRun, driver := h.driver, execs := h.execs, logExec := h.logExec, logCanc := h.logCanc,
+            exitPend := h.exitPend }
 
 /-! ### the wake-up invariant across API calls -/
 
@@ -213,11 +233,20 @@ theorem cancel_wake (s : State) (id : Nat) (hw : WakeInv s) : WakeInv (cancel s 
   · rw [k1, k2]; exact hw.closed
   · rw [k1, k2]; exact fun a b => hw.armed a (k3 b)
 
+theorem dropExitTimer_wake (s : State) (tid : Nat) (hw : WakeInv s) : WakeInv (dropExitTimer s tid) := by
+  unfold dropExitTimer
+  split
+  · have := submitNext_wake s tid [] hw
+    exact ⟨this.counter, this.closed, this.armed⟩
+  · exact hw
+
 theorem doAct_wake (cfg : Cfg) (s : State) (tid : Nat) (a : Act) (hw : WakeInv s) : WakeInv (doAct cfg s tid a) := by
   cases a with
   | inLoop k => exact submitInLoop_wake s tid _ hw
   | next k => exact submitNext_wake s tid _ hw
   | cancel id => exact cancel_wake s id hw
-  | exit => exact ⟨hw.counter, hw.closed, hw.armed⟩
+  | exit => have := dropExitTimer_wake s tid hw; exact ⟨this.counter, this.closed, this.armed⟩
+  | exitLater => have := dropExitTimer_wake s tid hw; exact ⟨this.counter, this.closed, this.armed⟩
+  | throw => exact ⟨hw.counter, hw.closed, hw.armed⟩
 
 end Tbox.C01
